@@ -84,6 +84,7 @@ func init() {
 // ---------------- child: the bubble ----------------
 
 var lsErrSink = errors.New("c15 sink error")
+var lsErrCustom = errors.New("c15 custom close error")
 
 type lsSink struct {
 	plan   []int
@@ -138,6 +139,8 @@ func lsClassify(err error) string {
 		return "timeout"
 	case errors.Is(err, lsErrSink):
 		return "sink"
+	case errors.Is(err, lsErrCustom):
+		return "custom1"
 	}
 	return "other:" + err.Error()
 }
@@ -227,7 +230,7 @@ func (w *lsWorker) loop(x *lsRun) {
 // dirOf: the direction a call of kind k at end e acts on, and whether it is the reader side
 func dirOf(k string, e int) (d int, reader bool) {
 	switch k {
-	case "r", "wt", "cr", "srd":
+	case "r", "wt", "cr", "cre", "srd":
 		return 1 - e, true
 	}
 	return e, false
@@ -244,6 +247,10 @@ func (x *lsRun) inline(op LOp) string {
 			err = c.CloseWrite()
 		case "c":
 			err = c.Close()
+		case "cre":
+			c.CloseReadWithError(lsErrCustom)
+		case "cwe":
+			c.CloseWriteWithError(lsErrCustom)
 		case "srd":
 			err = c.SetReadDeadline(deadlineOf(op.D))
 		case "swd":
@@ -285,6 +292,10 @@ func (x *lsRun) noteInline(op LOp, res string) {
 	case "c":
 		closeDir(1-e, "closed")
 		closeDir(e, "eof")
+	case "cre":
+		closeDir(1-e, "custom1")
+	case "cwe":
+		closeDir(e, "custom1")
 	case "srd", "swd", "sd":
 		// SetReadDeadline refuses (ErrClosedPipe) once the read side was closed by CloseRead;
 		// SetWriteDeadline once the write side was closed by CloseWrite (documented by the code only; not part
@@ -354,12 +365,16 @@ func (x *lsRun) collect(step int, cause LOp) {
 			} else if w.err == "nil" && w.n != w.op.N {
 				x.fail("ls:short-write-nil-err", "step %d: Write(%d) returned %d, nil", step, w.op.N, w.n)
 			}
-			if is.closed != "" && !(w.n == 0 && w.err == "closed") {
+			wantW := "closed"
+			if is.closed == "custom1" {
+				wantW = "custom1"
+			}
+			if is.closed != "" && !(w.n == 0 && w.err == wantW) {
 				x.fail("ls:after-close:w", "step %d: Write issued after the direction was closed returned (%d,%s)", step, w.n, w.err)
 			} else if is.closed == "" && is.expired && !(w.n == 0 && w.err == "timeout") {
 				x.fail("ls:deadline-ignored:w", "step %d: Write issued with an expired deadline returned (%d,%s)", step, w.n, w.err)
 			}
-			if w.err == "closed" && x.closed[d] == "" {
+			if (w.err == "closed" || w.err == "custom1") && x.closed[d] == "" {
 				x.fail("ls:spurious-close-error:w", "step %d: Write failed with ErrClosedPipe but nobody closed the direction", step)
 			}
 			if w.err == "timeout" && !x.wdl[d].expired {
@@ -380,7 +395,7 @@ func (x *lsRun) collect(step int, cause LOp) {
 			} else if is.expired && !(w.n == 0 && w.err == "timeout") {
 				x.fail("ls:deadline-ignored:"+w.op.K, "step %d: %s issued with an expired deadline returned (%d,%s)", step, w.op.K, w.n, w.err)
 			}
-			if (w.err == "eof" || w.err == "closed") && x.closed[d] == "" {
+			if (w.err == "eof" || w.err == "closed" || w.err == "custom1") && x.closed[d] == "" {
 				x.fail("ls:spurious-close-error:"+w.op.K, "step %d: %s failed with %s but nobody closed the direction", step, w.op.K, w.err)
 			}
 			if w.err == "timeout" && !x.rdl[d].expired {
@@ -474,7 +489,7 @@ func (x *lsRun) next(step, total int) (LOp, bool) {
 			return LOp{T: main, K: "adv"}, true
 		default: // closes: rare, and late
 			if step*10 >= total*6 || r.Chance(1, 6) {
-				return LOp{T: main, E: e, K: common.Pick(r, []string{"cr", "cw", "cw", "c"})}, true
+				return LOp{T: main, E: e, K: common.Pick(r, []string{"cr", "cw", "cw", "c", "c", "cre", "cwe"})}, true
 			}
 		}
 	}
@@ -718,9 +733,13 @@ func lsJudge(o *common.Options, rep *common.Report, rs []lsResult) error {
 		for _, c := range r.Counts {
 			rep.Count(c)
 		}
-		if rep.Distribution["ls:sampled"] < 2 {
+		if rep.Distribution["ls:sampled"] < 2 && len(r.Lines) > 20 {
 			rep.Count("ls:sampled")
-			rep.Sample(map[string]any{"engine": "lockstep", "case": r.Case, "transcript": strings.Join(r.Lines, " / ")})
+			smp := map[string]any{"engine": "lockstep", "case": r.Case, "transcript": strings.Join(r.Lines, " / ")}
+			if len(rep.Samples) >= 6 { // the sample list is capped: make room for this engine
+				rep.Samples = rep.Samples[:5]
+			}
+			rep.Samples = append([]any{smp}, rep.Samples...)
 		}
 		for _, f := range r.Fails {
 			rep.Fail(common.OracleFailure{Engine: "lockstep", Key: f.Key, Case: r.Case, Detail: f.Detail})
@@ -752,7 +771,7 @@ func lockstepEngine(o *common.Options, rep *common.Report) error {
 		}
 		return lsJudge(o, rep, rs)
 	}
-	n := o.Budget(1200, 40000)
+	n := o.Budget(1200, 25000)
 	const batch = 400
 	type job struct {
 		rs  []lsResult
